@@ -62,7 +62,18 @@ def run_case(case, ctx):
     d = len(N)
     ttm = M is not None
     modes = [a * b for a, b in zip(M, N)] if ttm else N
-    x = gens.make_tt(N, R, dt, 'gauss', g, M=M)
+    # memory layout of the base point: contiguous cores, cores that are permuted views (rank and mode dims not mergeable), or (operators) the result of t()
+    layout = ['contiguous', 'permuted-views', 'via-t()'][case['seed'] % 3]
+    if layout == 'permuted-views':
+        cs = gens.make_cores(N, R, dt, 'gauss', g, M=M)
+        cs = [c.permute(*reversed(range(c.dim()))).contiguous().permute(*reversed(range(c.dim()))) for c in cs]     # same values, reversed strides
+        x = torchtt.TT(cs)
+    elif layout == 'via-t()' and ttm:
+        x = ctx.call('t', lambda a: a.t(), gens.make_tt(M, R, dt, 'gauss', g, M=N))
+    else:
+        layout = 'contiguous'
+        x = gens.make_tt(N, R, dt, 'gauss', g, M=M)
+    ctx.count('base-layout:' + layout)
     dx = dn.D(x)
     dxi = dn.interleave_dense(dx, d) if ttm else dx
     from .c01 import _unfolding_ranks
